@@ -538,6 +538,8 @@ def _allowed_open(path):
     t = tempfile.gettempdir()
     if p.startswith(os.path.join(t, 'weasyprint-')) or p == t:
         return True
+    if p.startswith(os.path.join(os.path.realpath(t), 'c20-cache-')) or p.startswith(os.path.join(t, 'c20-cache-')):
+        return True                # the cache folder the CALLER named with the cache option
     return False
 
 
@@ -584,18 +586,29 @@ def render_case(case):
     html = doc_html(doc)
     opts = dict(case.get('options', {}))
     cache_mode = opts.pop('cache_mode', None)
-    cache = None
+    cache, folder, alive = None, None, []
+    import tempfile, shutil
     if cache_mode == 'dict':
         cache = {}
+    elif cache_mode in ('folder', 'folder-shared'):
+        folder = tempfile.mkdtemp(prefix='c20-cache-')
+        cache = folder                     # a new DiskCache(folder) per render
+    elif cache_mode == 'diskcache':
+        from weasyprint.document import DiskCache
+        folder = tempfile.mkdtemp(prefix='c20-cache-')
+        cache = DiskCache(folder)          # one instance shared by the renders
     if cache is not None:
         opts['cache'] = cache
-    att = []
-    for a in doc.get('opt_attachments', []):
-        if a.get('removed'):
-            continue
-        att.append(Attachment(url=a['abs'], url_fetcher=fetcher) if a.get('as') == 'object' else a['abs'])
-    if att:
-        opts['attachments'] = att
+    def fresh_attachments():
+        # an Attachment object is consumed by one write_pdf (its source is a one-shot context manager)
+        att = []
+        for a in doc.get('opt_attachments', []):
+            if a.get('removed'):
+                continue
+            att.append(Attachment(url=a['abs'], url_fetcher=fetcher) if a.get('as') == 'object' else a['abs'])
+        if att:
+            opts['attachments'] = att
+    fresh_attachments()
     res = {'html': html if case.get('want_html') else None, 'stage': None, 'exc': None}
     _AUDIT['events'] = []
     with capture_logs() as logs:
@@ -623,13 +636,23 @@ def render_case(case):
             res['calls_write'] = rec['calls'][ncalls_render:]
             res['pdf'] = pdf_facts(pdf)
             res['calls'] = list(rec['calls'])
+            alive.append(document)     # the first render stays alive: no dependence on when its cache is collected
             if case.get('second_render') and cache is not None:
-                # same cache, second render: cached images must not be fetched again
+                # second render + write_pdf with the same dict / DiskCache instance / folder
                 n0 = len(rec['calls'])
-                document2 = HTML(string=html, base_url=doc['base'], url_fetcher=fetcher).render(**opts)
+                fresh_attachments()
+                _AUDIT['stage'] = 'second'
+                _AUDIT['on'] = True
+                try:
+                    document2 = HTML(string=html, base_url=doc['base'], url_fetcher=fetcher).render(**opts)
+                    alive.append(document2)
+                    fp2 = fingerprint(document2)
+                    pdf2 = document2.write_pdf(**opts)
+                finally:
+                    _AUDIT['on'] = False
                 res['calls_second'] = rec['calls'][n0:]
-                fp2 = fingerprint(document2)
                 res['fp_second'] = hashlib.sha1(json.dumps(fp2, default=str).encode()).hexdigest()
+                res['pdf_second'] = pdf_facts(pdf2)
         except BaseException as exc:   # noqa
             import traceback
             _AUDIT['on'] = False
@@ -647,6 +670,11 @@ def render_case(case):
     res['debug_logs'] = [l for l in logs.records if l[0] == 'DEBUG'][:60]
     res['audit_bad'] = judge_audit(_AUDIT['events'])
     res['audit_n'] = len(_AUDIT['events'])
+    del alive[:]
+    cache = None
+    opts.pop('cache', None)
+    if folder:
+        shutil.rmtree(folder, ignore_errors=True)
     return res
 
 
@@ -945,3 +973,51 @@ def probe(case):
         raise ValueError(name)
     facts.pop('pdf', None)
     return facts
+
+
+# ------------------------------------------------------------------------------------------ DiskCache, direct
+
+class _CObj:
+    def __init__(self, n):
+        self.n = n
+
+
+def diskcache_ops(case):
+    """case: {ops: [['set', key, ['b', text] | ['o', n|None]] | ['get', key] | ['in', key] | ['reopen']]}
+    run on a real weasyprint.document.DiskCache in a temporary folder (every instance is kept alive until
+    the end, so __del__ plays no part); returns one observation per operation."""
+    import tempfile, shutil
+    from weasyprint.document import DiskCache
+    folder = tempfile.mkdtemp(prefix='c20-cache-')
+    instances = [DiskCache(folder)]
+    out = []
+    try:
+        for op in case['ops']:
+            c = instances[-1]
+            if op[0] == 'set':
+                kind, v = op[2]
+                c[op[1]] = v.encode() if kind == 'b' else (None if v is None else _CObj(v))
+                out.append(['set'])
+            elif op[0] == 'get':
+                try:
+                    v = c[op[1]]
+                except Exception as exc:   # noqa
+                    out.append(['get', 'err:' + type(exc).__name__])
+                    continue
+                if isinstance(v, bytes):
+                    out.append(['get', ['b', v.decode()]])
+                elif v is None:
+                    out.append(['get', ['o', None]])
+                elif isinstance(v, _CObj):
+                    out.append(['get', ['o', v.n]])
+                else:
+                    out.append(['get', 'other:' + repr(v)[:40]])
+            elif op[0] == 'in':
+                out.append(['in', bool(op[1] in c)])
+            elif op[0] == 'reopen':
+                instances.append(DiskCache(folder))
+                out.append(['set'])
+    finally:
+        del instances[:]
+        shutil.rmtree(folder, ignore_errors=True)
+    return out
